@@ -515,7 +515,12 @@ fn random_format(rng: &mut Rng) -> String {
         if i + 1 < n {
             // a zone name would swallow '-', '/', letters; an offset with colons would read ":NN" as its seconds
             const AFTER_ZONE: [&str; 7] = [" ", ",", ", ", "%n", "%t", "%%", "  "];
-            if ["Q", ":Q", "z", ":z"].contains(&d) {
+            if d == ".f" {
+                // %.f may print nothing: a blank-matching separator on both sides of it would merge into
+                // one run of blanks that the first of them swallows whole
+                const AFTER_EMPTY: [&str; 6] = ["-", "/", ":", ",", "T", "%%"];
+                s.push_str(AFTER_EMPTY[(rng.next() % AFTER_EMPTY.len() as u64) as usize]);
+            } else if ["Q", ":Q", "z", ":z"].contains(&d) {
                 s.push_str(AFTER_ZONE[(rng.next() % AFTER_ZONE.len() as u64) as usize]);
             } else {
                 s.push_str(SEPS[(rng.next() % SEPS.len() as u64) as usize]);
